@@ -525,6 +525,36 @@ def family_entry_override(thorough):
         yield it
 
 
+# ---------------------------------------------------------------------------------------------- family: variables
+def family_variables(thorough):
+    """a component with private variables, referenced in its own fields (stay %(v)s) - and parameters of the calling
+    workflows (0-2 levels up) that have the SAME name as a variable and are forwarded to the component directly or
+    inside text; control: a variable name no caller uses; variable values that use a parameter of the component"""
+    for vname in ('level', 'lvl'):
+        V = comp('V', [('text', 'dV'), ('m', 'dVm')], '-n %%(%s)s %%(text)s m=%%(m)s' % vname)
+        V['variables'] = {vname: 'private', 'w': 'val-%(m)s'}
+        V['workflowAttributes'] = {'restartHookFile': 'hook-%%(%s)s-%%(m)s.py' % vname}
+        for form_i, form in enumerate(('%(level)s', 'value=%(level)s', '%(level)s.%(other)s')):
+            for depth in (1, 2, 3):
+                for entry in ('given', 'default'):
+                    wfs = []
+                    for k in range(depth):
+                        name = 'main' if k == 0 else 'W' + 'abc'[k]
+                        steps = [('v', 'V', {'text': form, 'm': 'at%d' % k})]
+                        if k + 1 < depth:
+                            steps.append(('w', 'W' + 'abc'[k + 1], {'level': 'n%d-%%(level)s' % k, 'other': '%(other)s'}))
+                        wfs.append(wf(name, [('level', 'dL%d' % k), ('other', 'dO%d' % k)], steps))
+                    eargs = {'level': 'from-entry'} if entry == 'given' else {}
+                    yield item('variables', '%s-form%d-d%d-%s' % (vname, form_i, depth, entry), ns('main', eargs, wfs, [V]),
+                               rep=(form_i == 0 and depth == 2 and entry == 'given'))
+    # a parameter of the component itself that has the name of a variable: invalid
+    V = comp('V', [('level', 'dV')], '-n %(level)s')
+    V['variables'] = {'level': 'private'}
+    it = item('variables', 'variable-shadows-parameter', ns('main', {}, [wf('main', [], [('v', 'V', {})])], [V]))
+    it['expect'] = 'invalid'
+    yield it
+
+
 # ---------------------------------------------------------------------------------------------- family: cycles
 def family_cycles(thorough):
     """hand-written invalid namespaces that single-site mutations cannot reach: data-flow cycles between steps"""
@@ -743,7 +773,7 @@ def canon(doc):
 
 
 def base_items(thorough):
-    for fam in (family_multi, family_cycles, family_every_field, family_entry_override, family_environments,
+    for fam in (family_multi, family_cycles, family_every_field, family_entry_override, family_variables, family_environments,
                 family_prefix_names, family_literals,
                 family_references, family_names):
         for it in fam(thorough):
